@@ -154,8 +154,13 @@ def render_module(spec):
             ann = f": {it['ann']}" if it.get("ann") else ""
             out += [f"{it['name']}{ann} = {it['src']}", ""]
         elif k == "enum":
-            out.append(f"class {it['name']}(enum.Enum):")
-            out += [f"    {m} = {i + 1}" for i, m in enumerate(it["members"])]
+            out.append(f"class {it['name']}(enum.{it.get('base', 'Enum')}):")
+            start = it.get("start", 1)
+            if it.get("base") == "Flag":    # NONE = 0, then single bits
+                out += [f"    {m} = {0 if (start == 0 and i == 0) else 2 ** (i - (1 if start == 0 else 0))}"
+                        for i, m in enumerate(it["members"])]
+            else:
+                out += [f"    {m} = {i + start}" for i, m in enumerate(it["members"])]
             if it.get("method"):
                 out += ["", "    def label(self) -> str:", "        return self.name.lower()"]
             out.append("")
@@ -292,7 +297,8 @@ class ModGen:
         f = {"name": name}
         x = r.random()
         if x < 0.1:
-            cv = r.choice(["3", "'c'", "True", "1.5"] + ([f"{self.enums[0]}.{'M0'}"] if self.enums else []))
+            cv = r.choice(["3", "'c'", "True", "1.5", "0", "0.0", "''", "False"]
+                          + ([f"{self.enums[0]}.{'M0'}"] if self.enums else []))
             f["const"] = cv
             f["ty"] = ["Anything"]
             return f
@@ -601,6 +607,78 @@ def zoo_cases(rng, tier):
         cases.append({"suite": "stub", "mod": mod, "apd": rng.random() < 0.5, "dflt": True, "seeds": [],
                       "zoo": kind, "zoo_pos": "required+partial"})
         cases[-1]["dflt"] = cases[-1]["apd"]
+    return cases
+
+
+# ------------------------------------------------------------------ Constants of every allowed type, falsy and truthy
+
+CONST_VALUES = ["0", "0.0", "''", "False", "1", "1.5", "'x'", "True", "Kind0.M0", "Level.ZERO", "Level.ONE",
+                "Perm.NONE", "Perm.R"]
+
+
+def const_cases(rng, tier):
+    """a Constant with each value on the class itself, on a base, on the subclass only, and seen through the
+    derivation operators"""
+    cases = []
+    st = lambda name, bases, fields, **kw: dict({"kind": "struct", "name": name, "style": "annot", "bases": bases,
+                                                "fields": fields}, **kw)
+    root = [{"b": "Structure"}]
+    for cv in CONST_VALUES:
+        k = {"name": "k", "const": cv, "ty": ["Anything"]}
+        a = {"name": "a", "ty": ["String"]}
+        items = [{"kind": "enum", "name": "Kind0", "members": ["M0", "M1"]},
+                 {"kind": "enum", "name": "Level", "members": ["ZERO", "ONE"], "base": "IntEnum", "start": 0},
+                 {"kind": "enum", "name": "Perm", "members": ["NONE", "R", "W"], "base": "Flag", "start": 0},
+                 st("CA", root, [k, a]),
+                 st("CB", [{"b": "cls", "name": "CA"}], [{"name": "b", "ty": ["Integer"], "default": "1"}]),
+                 st("CC", root, [a, {"name": "k2", "const": "'other'", "ty": ["Anything"]}]),
+                 st("CD", [{"b": "cls", "name": "CC"}], [k]),
+                 st("CE", [{"b": "Extend", "of": "CA"}], [{"name": "e", "ty": ["Integer"]}]),
+                 st("CP", [{"b": "Partial", "of": "CA"}], []),
+                 st("CO", [{"b": "Omit", "of": "CB", "names": ["b"]}], []),
+                 st("CM", [{"b": "cls", "name": "CC"}, {"b": "cls", "name": "CA"}], [], addl=False)]
+        for apd in (True, False):
+            cases.append({"suite": "stub", "mod": {"items": json.loads(json.dumps(items))}, "apd": apd, "dflt": apd,
+                          "seeds": [], "const_value": cv})
+    return cases
+
+
+# ------------------------------------------------------------------ two bases declaring the same field name
+
+MI_KINDS = ["req", "opt", "dflt", "const"]
+
+
+def mi_cases(rng, tier):
+    """class C(A, B): both bases declare `f`, with every pair of requiredness forms, other fields of the bases
+    required or all optional; D(C) adds only optional fields"""
+    def decl(name, fkind, other, other_req):
+        fields = []
+        it = {"kind": "struct", "name": name, "style": "annot", "bases": [{"b": "Structure"}], "fields": fields}
+        if fkind == "const":
+            fields.append({"name": "f", "const": "'k'", "ty": ["Anything"]})
+        else:
+            f = {"name": "f", "ty": ["String"]}
+            if fkind == "dflt":
+                f["default"] = "'d'"
+            fields.append(f)
+        fields.append({"name": other, "ty": ["Integer"]})
+        opt = ([] if other_req else [other]) + (["f"] if fkind == "opt" else [])
+        if opt:
+            it["optional"] = opt
+        return it
+    cases = []
+    for ka in MI_KINDS:
+        for kb in MI_KINDS:
+            for other_req in (False, True):
+                items = [decl("A", ka, "a", other_req), decl("B", kb, "b", other_req),
+                         {"kind": "struct", "name": "C", "style": "annot", "fields": [],
+                          "bases": [{"b": "cls", "name": "A"}, {"b": "cls", "name": "B"}]},
+                         {"kind": "struct", "name": "D", "style": "annot",
+                          "bases": [{"b": "cls", "name": "C"}],
+                          "fields": [{"name": "extra", "ty": ["Integer"], "default": "2"},
+                                     {"name": "note", "ty": ["pyopt", ["py", "str"]]}]}]
+                cases.append({"suite": "stub", "mod": {"items": items}, "apd": True, "dflt": True, "seeds": [],
+                              "mi": f"{ka}+{kb}" + ("/others-required" if other_req else "/others-optional")})
     return cases
 
 
@@ -1129,7 +1207,9 @@ def run_impl(case):
             return res
         res["abstraction"] = check_abstraction(mod, spec_by_name)
         res["runtime"] = {n: runtime_view(mod, getattr(mod, n), it, spec_by_name) for n, it in spec_by_name.items()}
-        res["enums"] = {it["name"]: [m.name for m in getattr(mod, it["name"])]
+        res["enums_iter"] = {it["name"]: [m.name for m in getattr(mod, it["name"])]
+                             for it in case["mod"]["items"] if it["kind"] == "enum"}
+        res["enums"] = {it["name"]: list(getattr(mod, it["name"]).__members__)
                         for it in case["mod"]["items"] if it["kind"] == "enum"}
         res["others"] = [it["name"] for it in case["mod"]["items"] if it["kind"] in ("plain", "dataclass")]
         res["functions"] = [it["name"] for it in case["mod"]["items"] if it["kind"] == "func"]
@@ -1215,6 +1295,10 @@ def tags(case, impl, model):
     out = ["apd:" + str(case["apd"])]
     if case.get("zoo"):
         out.append(f"zoo:{case['zoo_pos']}")
+    if case.get("const_value"):
+        out.append("const-value:" + case["const_value"])
+    if case.get("mi"):
+        out.append("multi-base-same-field:" + case["mi"])
     if case.get("sig_site"):
         out += [f"sig-site:{case['sig_site']}", f"sig-default:{case['sig_default']}"]
     if "unbuildable" in impl:
